@@ -1,7 +1,7 @@
 """C05: each option performs only its documented rewrite, only where it is valid.
 Leg T: Model/Struct.v (skeleton transformers) evaluated by vm_compute vs each real transformer run alone.
 Oracle: a second, independent implementation of `canon_O` on Python ASTs: canon_O(parse(minify(P, O))) == canon_O(parse(P))."""
-import ast, copy, itertools, collections, os, sys
+import ast, copy, itertools, collections, json, os, sys
 from harness import common, astcmp
 
 TRUSTED = [
@@ -572,17 +572,118 @@ def diff_kind(a, b, O):
     return '-'.join(gone[:3]) or 'same-kinds'
 
 
+
+# ------------------------------------------------------------------------------------------------ leg CF: the control-flow semantics
+def cf_gen(r, depth, in_func=True):
+    """a random suite over atoms, returns, if / while-else / with / try-else-finally / nested def: (coq term, python lines)"""
+    n = r.randint(1, 3)
+    coq, py = [], []
+    for _ in range(n):
+        k = r.random()
+        if depth <= 0 or k < 0.35:
+            a = r.randint(1, 60)
+            c = r.random()
+            if c < 0.5:
+                coq.append('Simple (KOther %d)' % a); py.append('ev(%d)' % a)
+            elif c < 0.6:
+                coq.append('Simple KPass'); py.append('pass')
+            elif c < 0.7:
+                coq.append('Simple (KLit %d)' % a); py.append('%d' % a)
+            elif c < 0.8:
+                coq.append('Simple (KReturn RBare)'); py.append('return')
+            elif c < 0.9:
+                coq.append('Simple (KReturn RNoneConst)'); py.append('return None')
+            else:
+                coq.append('Simple (KReturn (ROther %d))' % a); py.append('return ev(%d)' % a)
+            continue
+        b1c, b1p = cf_gen(r, depth - 1)
+        b2c, b2p = cf_gen(r, depth - 1) if r.random() < 0.7 else ('[]', [])
+        ind = lambda ls: ['    ' + x for x in ls]
+        if k < 0.55:
+            coq.append('Block (BIf (TOther 0)) [%s] [%s] []' % (b1c, b2c))
+            py += ['if orc():'] + ind(b1p) + (['else:'] + ind(b2p) if b2p else [])
+        elif k < 0.68:
+            coq.append('Block (BLoop 0) [%s] [%s] []' % (b1c, b2c))
+            py += ['while orc():'] + ind(b1p) + (['else:'] + ind(b2p) if b2p else [])
+        elif k < 0.78:
+            coq.append('Block (BWith 0) [%s] [] []' % b1c)
+            py += ['with ctx:'] + ind(b1p)
+        elif k < 0.93:
+            b3c, b3p = cf_gen(r, depth - 1) if r.random() < 0.6 else ('[]', [])
+            coq.append('Block BTry [%s] [%s; %s] [[Simple (KOther 99)]]' % (b1c, b2c, b3c))
+            py += ['try:'] + ind(b1p) + ['except ZeroDivisionError:', '    ev(99)'] + (['else:'] + ind(b2p) if b2p else []) + (['finally:'] + ind(b3p) if b3p else [])
+        else:
+            a = r.randint(61, 90)
+            coq.append('Block (BFunc %d) [%s] [] []' % (a, b1c))
+            py += ['ev(%d)' % a, 'def inner_%d():' % a] + ind(b1p)
+    return '[' + '; '.join(coq) + ']', py
+
+
+CF_PRELUDE = """import contextlib, json, sys
+trace = []
+def ev(i):
+    trace.append(i)
+    return i
+ctx = contextlib.nullcontext()
+class Exhausted(Exception):
+    pass
+def orc():
+    if not oracle:
+        raise Exhausted()
+    return oracle.pop(0)
+"""
+
+
+def leg_CF(res, r, tier):
+    """Model/ControlFlow.v (`call`) against CPython: the same function body, the same oracle -> the same events, returned value and
+    number of oracle answers consumed; also for the body RemoveExplicitReturnNone's model makes of it"""
+    import subprocess
+    n = 60 if tier == 'quick' else 600
+    bodies = [cf_gen(r, 3) for _ in range(n)]
+    oracles = [[r.random() < 0.45 for _ in range(30)] for _ in range(n)]
+    prog = [CF_PRELUDE]
+    for i, (c, p) in enumerate(bodies):
+        prog += ['def f_%d():' % i] + ['    ' + x for x in p] + ['']
+    prog += ['out = []', 'for i, orc_list in enumerate(%r):' % oracles, '    oracle = list(orc_list)', '    del trace[:]',
+             '    try:', '        v = globals()["f_%d" % i]()', '        out.append([list(trace), v, len(oracle)])', '    except Exhausted:', '        out.append(None)', 'print(json.dumps(out))']
+    p = subprocess.run([common.PY, '-I', '-c', '\n'.join(prog)], stdout=subprocess.PIPE, stderr=subprocess.PIPE, timeout=300)
+    if p.returncode != 0:
+        res.broken.append(('reference-model', 'leg CF: the rendered skeleton programs did not run: ' + p.stderr.decode()[-300:]))
+        return 0
+    got = json.loads(p.stdout)
+    cases = []
+    for (c, _p), o, g in zip(bodies, oracles, got):
+        ol = '[' + '; '.join('true' if b else 'false' for b in o) + ']'
+        if g is None:
+            exp = 'None'
+        else:
+            exp = 'Some ([%s], %s, %d)' % ('; '.join('%d%%N' % x for x in g[0]), 'None' if g[1] is None else '(Some %d%%N)' % g[1], g[2])
+        for body in ('(%s)%%N' % c, '(ret_body (%s)%%N)' % c):
+            cases.append('cf_eqb (call 400 %s %s) (%s)' % (ol, body, exp))
+    header = ['From PM Require Import Model.Base Model.Struct Model.ControlFlow.', 'Open Scope bool_scope.',
+              'Definition oN_eqb (a b : option N) : bool := match a, b with Some x, Some y => N.eqb x y | None, None => true | _, _ => false end.',
+              'Definition cf_eqb (a : option (list N * option N * list bool)) (b : option (list N * option N * nat)) : bool := match a, b with',
+              "  | Some (t, v, o), Some (t', v', n) => text_eqb t t' && oN_eqb v v' && Nat.eqb (length o) n",
+              '  | None, None => true | _, _ => false end.']
+    nn, failing, raw = common.run_cases('c05CF', header, cases, shard=60)
+    if failing is None:
+        res.broken.append(('reference-model', 'leg CF: control-flow model evaluation failed: ' + raw[-400:]))
+    elif failing:
+        res.broken.append(('reference-model', 'leg CF: Model/ControlFlow.v disagrees with CPython on %d of %d (body, oracle) cases, e.g. %s' % (len(failing), nn, cases[failing[0]][:400])))
+    return nn
+
 def run(pid, tier):
     res = common.Result(pid, tier)
     res.trusted = TRUSTED
     res.assumptions = ['the parser never produces an empty body suite', 'interned identifiers: two sub-terms with the same ast.dump are the same']
-    common.standard_proof_phase(res, ['pipeline'], 'Properties/C05.v', model_targets=['Model/StructTable.vo'])
+    common.standard_proof_phase(res, ['pipeline'], 'Properties/C05.v', model_targets=['Model/StructTable.vo', 'Model/ControlFlow.vo'])
     r = common.rng(pid)
     progs = programs(r, tier if not res.broken else 'thorough')
     with common.coq_lock():
         nT, hits, failing = leg_T(res, progs)
+        nCF = leg_CF(res, r, tier)
     nO = oracle(res, progs, r, tier)
     res.samples = [progs[0], progs[len(DIRECTED) + 1] if len(progs) > len(DIRECTED) + 1 else progs[-1]]
-    res.coverage.update({'leg_T_cases': nT, 'leg_T_programs_changed_per_transformer': hits, 'oracle_cases': nO, 'evaluations': nT + nO, 'distinct_nontrivial': len(set(progs)),
+    res.coverage.update({'leg_CF_control_flow_cases_vs_cpython': nCF, 'leg_T_cases': nT, 'leg_T_programs_changed_per_transformer': hits, 'oracle_cases': nO, 'evaluations': nT + nO, 'distinct_nontrivial': len(set(progs)),
                          'rule': 'programs: directed shapes + random statement trees putting every statement kind into every suite position (function/class/loop/else/except/finally/match case/try*); leg T case = (program, transformer); oracle case = (program, option record)'})
     return res.finish()
